@@ -151,6 +151,7 @@ func Main(args []string) int {
 	rep.Set("traces_validated_against_impl", execs)
 	rep.Set("evaluations", execs)
 	rep.Set("padding_jobs_not_executed", st.Info["padding_jobs"])
+	rep.Set("per_level_note", "level 1 selects the configuration, level k+1 is block k; the per-level 'executions' include padding jobs (event indexes that mean nothing in a configuration: answered without executing anything), 'transitions' does not")
 	rep.Set("distinct_nontrivial", st.Info["nontrivial_executions"])
 	rep.Set("rule", "one case = one history (configuration + up to "+fmt.Sprint(depth)+" blocks of 0..2 operations) replayed from genesis on the real application, reference tracker model compared with the committed state after every block and after "+fmt.Sprint(quietBlocks)+" trailing empty blocks; histories are distinct by construction (BFS over event sequences, successors only of new states); non-trivial = in that execution at least one oracle antecedent fired: a tracker completed (mint / release / failure / refund), a redeem was debited, a duplicate submission for an existing tracker was attempted, a non-witness reported, or a witness reported twice")
 	// vacuity: every event of every explored configuration must be accepted somewhere
